@@ -10,10 +10,10 @@ use std::sync::{Arc, Mutex};
 use std::time::{Duration, Instant};
 use vcommon::{Report, Scenario, Violation};
 
-const PROPS: [&str; 6] = ["C01", "C02", "C03", "C04", "C06", "C09"];
+const PROPS: [&str; 7] = ["C01", "C02", "C03", "C04", "C05", "C06", "C09"];
 fn props_for(cfg: &Cfg) -> Vec<String> {
     if cfg.flavour.is_broadcast() {
-        ["C07", "C04", "C09"].iter().map(|s| s.to_string()).collect()
+        ["C07", "C04", "C05", "C09"].iter().map(|s| s.to_string()).collect()
     } else {
         PROPS.iter().map(|s| s.to_string()).collect()
     }
@@ -86,19 +86,34 @@ fn configs(tier: &str) -> Vec<Cfg> {
                     observers: true,
                     max_tx: if fl.multi_tx() { 2 } else { 1 },
                     max_rx: if fl.multi_rx() { 2 } else { 1 },
-                    max_futs: if fl.is_broadcast() { 0 } else { 2 },
+                    max_futs: 2,
                     slim,
                     prefix: vec![],
                     prefix_name: String::new(),
+                    restrict: vec![],
                 };
                 for warm in warms {
                     v.push(Cfg { warm, ..base.clone() });
                 }
+                // more parked receivers than the (non-power-of-two) capacity, then a burst of sends
+                if fl == Flavour::MpmcBounded && cap == Some(3) && ra {
+                    use chan::api::Op;
+                    let p = vec![Act::Rx(0, Op::RecvFut), Act::Rx(0, Op::RecvFut), Act::Rx(0, Op::RecvFut), Act::Rx(0, Op::RecvFut), Act::PollTask(false, 0)];
+                    v.push(Cfg { depth: pdepth_env.unwrap_or(if tier == "quick" { 4 } else { 5 }), prefix: p, prefix_name: "4rx-pending".into(), max_futs: 4, restrict: vec![Op::TrySend, Op::TrySendBatch, Op::TryRecv, Op::Send], ..base.clone() });
+                }
+                // slab / chunk boundaries with two producers: small alphabet, deeper
+                if matches!(fl, Flavour::MpscUnbounded | Flavour::MpmcUnbounded | Flavour::MpscBounded) && !ta && !ra {
+                    use chan::api::Op;
+                    for warm in [3usize, 4] {
+                        let p = vec![Act::Tx(0, Op::Clone)];
+                        v.push(Cfg { warm, depth: if tier == "quick" { 6 } else { 8 }, prefix: p, prefix_name: format!("2tx-w{}", warm), restrict: vec![Op::TrySend, Op::TrySendBatch, Op::TryRecv, Op::TryRecvBatch], ..base.clone() });
+                    }
+                }
                 for (name, p) in prefixes(fl, cap, ta, ra) {
-                    if fl.is_broadcast() && name != "full" && name != "full-minus-1" {
+                    if fl.is_broadcast() && matches!(name.as_str(), "2rx-pending" | "2tx-pending") {
                         continue;
                     }
-                    v.push(Cfg { depth: pdepth_env.unwrap_or(pdepth), prefix: p, prefix_name: name, max_futs: if fl.is_broadcast() { 0 } else { 3 }, ..base.clone() });
+                    v.push(Cfg { depth: pdepth_env.unwrap_or(pdepth), prefix: p, prefix_name: name, max_futs: 3, ..base.clone() });
                 }
             }
         }
@@ -254,7 +269,7 @@ fn run_cfg(cfg: &Cfg, skip0: &BTreeSet<Vec<Act>>) -> (Scenario, Vec<Violation>) 
                             let _ = replay(&cfg3, &h2);
                             let _ = ptx.send(());
                         }).unwrap();
-                        if prx.recv_timeout(Duration::from_secs(20)).is_ok() {
+                        if prx.recv_timeout(Duration::from_secs(10)).is_ok() {
                             // the history completes: the worker is merely slow (machine load)
                             last_change = Instant::now();
                         } else if prog.nodes.load(Ordering::Relaxed) == last && *prog.current.lock().unwrap() == hist {
@@ -327,7 +342,7 @@ fn run_cfg(cfg: &Cfg, skip0: &BTreeSet<Vec<Act>>) -> (Scenario, Vec<Violation>) 
                 });
                 skip.insert(hist);
                 caps.push(format!("history hung and was skipped (subtree unexplored): {}", last_op));
-                if skip.len() > skip0.len() + 40 {
+                if skip.len() > skip0.len() + 6 {
                     let sc = Scenario { name: cfg.name(), properties: props_for(cfg), exhaustive: false, caps, wall_s: t0.elapsed().as_secs_f64(), ..Default::default() };
                     return (sc, hang_viol);
                 }
